@@ -259,6 +259,46 @@ pub fn run(opts: &Opts) -> Report {
             }
         }
     }
+    // ---- renaming a loop variable to the name of a built-in function / macro, and spelling a macro call in method
+    // position, must not change the result: the compile-time evaluation of an inner closed call must not freeze
+    // what it could not resolve (real code against real code; no model request)
+    let mut pairs: Vec<(String, String)> = vec![
+        ("[1].map(sz, dyn([sz]))".into(), "[1].map(size, dyn([size]))".into()),
+        ("[7].map(mx, dyn([mx]))[0][0]".into(), "[7].map(max, dyn([max]))[0][0]".into()),
+        ("[1, 2].reduce(ac, v, dyn([ac])[0] + v, 0)".into(), "[1, 2].reduce(min, v, dyn([min])[0] + v, 0)".into()),
+        ("[1].map(sz, string({'a': dyn([sz])} == {'a': [1]}))".into(), "[1].map(size, string({'a': dyn([size])} == {'a': [1]}))".into()),
+        ("[1].filter(sz, bool(size([sz])))".into(), "[1].filter(sort, bool(size([sort])))".into()),
+        ("[has(m.a)][0]".into(), "dyn([[1].has(m.a)])[0]".into()),
+        ("[has(1)][0]".into(), "dyn([[1].has(1)])[0]".into()),
+        ("[coalesce(null, 2)]".into(), "dyn([[1].coalesce(null, 2)])".into()),
+        ("[[1].has(1)].sort()".into(), "[[2].has(1)].sort()".into()),
+        ("size([[1].has(1)]) == 1 && [[1].has(1)][0]".into(), "size(dyn([[1].has(1)])) == 1 && dyn([[1].has(1)])[0]".into()),
+    ];
+    for c in cases.iter().take(if opts.thorough { 20_000 } else { 2_500 }) {
+        // generated macro expressions: the generator names loop variables v0, v1, ..; rename v0 to a function name
+        if c.src.contains("(v0,") && !c.src.contains("size") && !c.src.contains("tick(v0") {
+            let toks = match tokens(&c.src) {
+                Some(t) => t,
+                None => continue,
+            };
+            let id = format!("id:{}", hex(b"v0"));
+            let repl: Vec<(usize, String)> = toks.iter().enumerate().filter(|(_, t)| t.0 == id).map(|(i, _)| (i, "size".to_string())).collect();
+            pairs.push((c.src.clone(), splice(&c.src, &toks, &repl)));
+        }
+    }
+    for (a, b) in pairs.iter() {
+        let binds = std_bindings(0);
+        let (ra, pa) = run_variant(a, &binds);
+        let (rb, _) = run_variant(b, &binds);
+        rep.count(Some(b));
+        rep.bump("renaming-pairs");
+        if pa.is_none() {
+            continue;
+        }
+        if ra != rb {
+            rep.oracle_fail(&format!("{}   vs   {}", a, b), &rb, &ra, "renaming a loop variable to a built-in's name / spelling a macro call in method position changed the result: a compile-time evaluation froze a name it could not resolve");
+        }
+    }
     // ---- clock-dependent calls are never frozen
     // (source, is the result fine-grained enough to differ after a few milliseconds)
     let clock_srcs: [(&str, bool); 24] = [
